@@ -19,22 +19,22 @@ func ins(op g.OpCode, md g.OpMode, am g.AddressMode, a int, bm g.AddressMode, b 
 func Alphabet(M uint64) []g.Instruction {
 	D, I, P := g.DIRECT, g.IMMEDIATE, g.B_DECREMENT
 	return []g.Instruction{
-		ins(g.DAT, g.F, D, 0, D, 0, M),   // death
-		ins(g.SPL, g.B, D, 0, D, 0, M),   // split onto itself
-		ins(g.JMP, g.B, D, 0, D, 0, M),   // stays forever
-		ins(g.MOV, g.I, D, 0, D, 1, M),   // imp
-		ins(g.SEQ, g.I, D, 0, D, 1, M),   // skip (taken when followed by a copy of itself)
-		ins(g.JMP, g.B, D, -1, D, 0, M),  // loop back
-		ins(g.SPL, g.B, D, 1, D, 0, M),   // split forward
-		ins(g.NOP, g.B, D, 0, D, 0, M),   // fall through
-		ins(g.MOV, g.I, D, 2, P, -1, M),  // bomb behind with pre-decrement
-		ins(g.SPL, g.B, D, -1, D, 0, M),  // split backwards
-		ins(g.DJN, g.B, D, 0, I, 2, M),   // counts itself down
-		ins(g.DIV, g.AB, I, 0, D, 1, M),  // death by division
-		ins(g.MOV, g.I, D, 1, D, 3, M),   // bomb ahead
-		ins(g.JMZ, g.B, D, -1, D, 1, M),  // conditional loop
-		ins(g.SNE, g.B, I, 0, D, 0, M),   // skip on a non-zero B-field
-		ins(g.ADD, g.AB, I, 1, D, -1, M), // modifies the previous cell
+		ins(g.DAT, g.F, D, 0, D, 0, M),             // death
+		ins(g.SPL, g.B, D, 0, D, 0, M),             // split onto itself
+		ins(g.JMP, g.B, D, 0, D, 0, M),             // stays forever
+		ins(g.MOV, g.I, D, 0, D, 1, M),             // imp
+		ins(g.SEQ, g.I, D, 0, D, 1, M),             // skip (taken when followed by a copy of itself)
+		ins(g.JMP, g.B, D, -1, D, 0, M),            // loop back
+		ins(g.SPL, g.B, D, 1, D, 0, M),             // split forward
+		ins(g.MOV, g.I, D, 1, g.B_INCREMENT, 2, M), // copies through a post-incremented pointer
+		ins(g.MOV, g.I, D, 2, P, -1, M),            // bomb behind with pre-decrement
+		ins(g.SPL, g.B, D, -1, D, 0, M),            // split backwards
+		ins(g.DJN, g.B, D, 0, I, 2, M),             // counts itself down
+		ins(g.DIV, g.AB, I, 0, D, 1, M),            // death by division
+		ins(g.MOV, g.I, D, 1, D, 3, M),             // bomb ahead
+		ins(g.NOP, g.B, D, 0, D, 0, M),             // fall through
+		ins(g.SNE, g.B, I, 0, D, 0, M),             // skip on a non-zero B-field
+		ins(g.ADD, g.AB, I, 1, D, -1, M),           // modifies the previous cell
 	}
 }
 
@@ -267,21 +267,24 @@ func Run(rep *hx.Report, props Props, tier string, sh hx.Shard, deadline time.Ti
 	switch {
 	case props.C02:
 		if thorough {
-			rep.Bound = "M=8: all programs of length 1..2 over 16 letters and length 3 over 8 letters alone (P 1..3, 2 offsets, every entry point); all ordered pairs of the 272 short programs x offsets 1..7 x P 1..3 x entry points x cycle limit 24, and x every cycle limit 1..6 at P=2; all triples of one-instruction programs x all offset pairs x P 1..2; all quadruples over 8 letters x P 1..3"
+			rep.Bound = "M=8: all programs of length 1..2 over 16 letters and length 3 over 8 letters alone (P 1..3, 2 offsets, every entry point); all ordered pairs of the 272 short programs x offsets 1..7 x P 1..3 x entry points x cycle limit 24, and x every cycle limit 1..6 at P=2; all triples of one-instruction programs x all offset pairs x P 1..2; all quadruples over 8 letters x P 1..3; all ordered pairs over 10 letters with process limits 5, 6, 7, 9, 17 and 40 cycles"
 			r.singles(M, append(Programs(alpha, 16, 2), Programs(alpha, 8, 3)[72:]...), full, 24)
 			p2 := Programs(alpha, 16, 2)
 			r.pairs(M, p2, []uint64{1, 2, 3}, []uint64{24}, full, true)
 			r.pairs(M, p2, []uint64{2}, []uint64{1, 2, 3, 4, 5, 6}, full, false)
 			r.triples(M, alpha, 16, []uint64{1, 2}, 16, full)
 			r.quads(M, alpha, 8, 12)
+			r.pairs(M, Programs(alpha, 10, 2), []uint64{5, 6, 7, 9, 17}, []uint64{40}, full, false)
 		} else {
-			rep.Bound = "M=8: all programs of length 1..2 over 16 letters alone; all ordered pairs of them x offsets 1..7 x P 1..3 x cycle limit 16; all ordered pairs over 8 letters x every entry point x cycle limits 1..4 at P=2; all triples over 10 letters x all offset pairs at P in {1,2}; all quadruples over 6 letters"
+			rep.Bound = "M=8: all programs of length 1..2 over 16 letters alone; all ordered pairs of them x offsets 1..7 x P 1..3 x cycle limit 16; all ordered pairs over 8 letters x every entry point x cycle limits 1..4 at P=2; all triples over 10 letters x all offset pairs at P in {1,2}; all quadruples over 6 letters; all ordered pairs over 7 letters with process limits 5, 6, 9"
 			p2 := Programs(alpha, 16, 2)
 			r.singles(M, p2, full, 16)
 			r.pairs(M, p2, []uint64{1, 2, 3}, []uint64{16}, full, false)
 			r.pairs(M, Programs(alpha, 8, 2), []uint64{2}, []uint64{1, 2, 3, 4}, full, true)
 			r.triples(M, alpha, 10, []uint64{1, 2}, 12, full)
 			r.quads(M, alpha, 6, 10)
+			// larger process limits (queues that grow well past 4 entries and wrap their ring)
+			r.pairs(M, Programs(alpha, 7, 2), []uint64{5, 6, 9}, []uint64{24}, full, false)
 		}
 	case props.C12:
 		for _, m := range []uint64{8, 5} {
@@ -314,18 +317,20 @@ func Run(rep *hx.Report, props Props, tier string, sh hx.Shard, deadline time.Ti
 		}
 	case props.C15:
 		if thorough {
-			rep.Bound = "recording listener + StateRecorder on: all programs of length 1..2 over 16 letters alone; all ordered pairs of programs of length 1..2 over 12 letters x offsets x P 1..2; triples over 8 letters; 12-letter programs with Reset after every cycle count 0..6"
+			rep.Bound = "recording listener + StateRecorder on: all programs of length 1..2 over 16 letters alone; all ordered pairs of programs of length 1..2 over 12 letters x offsets x P 1..2; triples over 8 letters; 12-letter programs with Reset after every cycle count 0..6; load offsets M, M+3, 2M+7, 5M"
 			p2 := Programs(alpha, 12, 2)
 			r.singles(M, Programs(alpha, 16, 2), full, 16)
 			r.pairs(M, p2, []uint64{1, 2}, []uint64{16}, full, false)
 			r.triples(M, alpha, 8, []uint64{2}, 10, full)
 			r.resets(M, Programs(alpha, 12, 2), 6)
+			r.bigOffsets(M, Programs(alpha, 12, 2))
 		} else {
-			rep.Bound = "recording listener + StateRecorder on: all programs of length 1..2 over 12 letters alone; all ordered pairs of programs of length 1..2 over 8 letters x offsets at P=2; triples over 5 letters; 8-letter programs with Reset after every cycle count 0..4"
+			rep.Bound = "recording listener + StateRecorder on: all programs of length 1..2 over 12 letters alone; all ordered pairs of programs of length 1..2 over 8 letters x offsets at P=2; triples over 5 letters; 8-letter programs with Reset after every cycle count 0..4; load offsets M, M+3, 2M+7, 5M"
 			r.singles(M, Programs(alpha, 12, 2), full, 12)
 			r.pairs(M, Programs(alpha, 8, 2), []uint64{2}, []uint64{12}, full, false)
 			r.triples(M, alpha, 5, []uint64{2}, 8, full)
 			r.resets(M, Programs(alpha, 8, 2), 4)
+			r.bigOffsets(M, Programs(alpha, 8, 2))
 		}
 	default:
 		rep.Note(fmt.Sprintf("engine e2 has no space for props %+v", props))
@@ -341,6 +346,20 @@ func (r *runner) resets(M uint64, progs [][]g.Instruction, maxK int) {
 		}
 		for k := 0; k <= maxK; k++ {
 			r.run(&Battle{M: M, R: M, W: M, P: 2, C: 12, ResetAt: k, Ws: []WSpec{{p, 0, 0}, {imp, 0, 4}}})
+		}
+	}
+	r.sample()
+}
+
+// bigOffsets: load offsets at and above the core size (reports must carry reduced addresses).
+func (r *runner) bigOffsets(M uint64, progs [][]g.Instruction) {
+	imp := []g.Instruction{Alphabet(M)[3]}
+	for pi, p := range progs {
+		if !r.sh.Mine(pi) || r.expired() {
+			continue
+		}
+		for _, off := range []uint64{M, M + 3, 2*M + 7, 5 * M} {
+			r.run(&Battle{M: M, R: M, W: M, P: 2, C: 8, ResetAt: -1, Ws: []WSpec{{p, len(p) - 1, off}, {imp, 0, off + 4}}})
 		}
 	}
 	r.sample()
